@@ -250,6 +250,16 @@ StepRevoke(r, r2, a) ==
         (r[o][s].st = "valid" /\ r2[o][s].st = "revoked") =>
             a.k = "revoke" /\ a.signer = o /\ a.o = o /\ a.s = s
 
+\* C06 (judged for the chain family by cert.extra_stage): a create / revoke changes no record other than the
+\* owner+serial it names -- create: the message's Owner and the certificate's serial; revoke: the id's owner and
+\* what the DECIMAL reading of the spelled serial names -- and so no record of another owner
+StepTouch(r, r2, a) ==
+    \A o \in Owners, s \in Serials :
+        r2[o][s] # r[o][s] =>
+            /\ a.k \in {"create", "revoke"}
+            /\ s = a.s
+            /\ o = IF a.k = "create" THEN a.mo ELSE a.o
+
 \* a query never changes the registry
 StepQuery(r, r2, a) == a.k \in QueryKinds => r2 = r
 
@@ -295,7 +305,7 @@ Inv_ListingsTotal   == out.k \in QueryKinds => QTotal(out)
 Inv_ListingComplete == out.k \in QueryKinds => QComplete(reg, out)
 Inv_QueryIsFunction == out.k \in QueryKinds => [ok |-> out.ok, pages |-> out.pages] = SpecRes(reg, out)
 
-Prop_Steps == [][StepProps(reg, reg', out')]_vars
+Prop_Steps == [][StepProps(reg, reg', out') /\ StepTouch(reg, reg', out')]_vars
 
 \* the query clauses as an action property (what a query step leaves in out'): TLC evaluates it on every
 \* generated successor, also when the ghost variable out is hidden by a VIEW
